@@ -284,6 +284,12 @@ def _classify_source(expr, ptypes):
             return expr, True
         if ty.startswith('& ['):
             return expr, False
+    # D1b (shape-checked): `& PLACE` with PLACE = ident(.ident)*, e.g. `for (i, _) in &self.big_chunks`:
+    # `IntoIterator for &Vec<T> / &[T] / &[T; N]` is `PLACE.iter()` (alloc/core definition, trusted as for D1);
+    # the generated `PLACE.len()` / `&PLACE[i]` only type-check for such sources
+    if len(expr) >= 2 and _is(expr[0], '&') and not _is(expr[1], 'mut') and len(expr) % 2 == 0 \
+            and all((t[0] == 'id') if k % 2 == 0 else _is(t, '.') for k, t in enumerate(expr[1:])):
+        return expr[1:], False
     raise Unsupported('D1: iterator source `%s`' % _txt(expr))
 
 
@@ -718,6 +724,13 @@ def _place_path_end(out, i):
     return j
 
 
+def _d11b_field_init(out, i):
+    """`{ f : & P OP & Q ,` / `, f : & P OP & Q }`: the operand starts the value of a struct-literal field (real tokens
+    `{`|`,` id `:` before it; rational/src/simplify.rs `numerator: &left.numerator + &right.numerator,`)."""
+    return i >= 3 and _is(out[i - 1], ':') and not out[i - 1][2] and out[i - 2][0] == 'id' and not out[i - 2][2] \
+        and out[i - 3][0] == 'p' and out[i - 3][1] in ('{', ',') and not out[i - 3][2]
+
+
 def rule_d11b(toks, log):
     """`& P OP & Q` (no parentheses) as a complete expression, P and Q plain place paths `id ( . id | . int )*`, preceded by
     `=`, `(`, `{`, `}`, `;`, `,` or an annotation and followed by `;`, `)`, `}`, `,` or an annotation
@@ -728,7 +741,8 @@ def rule_d11b(toks, log):
     while i < len(out):
         t = out[i]
         if _is(t, '&') and not t[2] \
-                and (i == 0 or out[i - 1][2] or (out[i - 1][0] == 'p' and out[i - 1][1] in ('=', '(', '{', '}', ';', ','))):
+                and (i == 0 or out[i - 1][2] or (out[i - 1][0] == 'p' and out[i - 1][1] in ('=', '(', '{', '}', ';', ','))
+                     or _d11b_field_init(out, i)):
             e1 = _place_path_end(out, i + 1)
             if e1 is not None and e1 + 1 < len(out) and out[e1][0] == 'p' and out[e1][1] in _D11_OPS and not out[e1][2] \
                     and _is(out[e1 + 1], '&') and not out[e1 + 1][2]:
@@ -810,7 +824,9 @@ def rule_d2(toks, log):
             # a lifetime `'a`, or a const parameter of the impl header `const B : Word` (impl<const B: Word> Tr<X<B>> for Y)
             lt = len(part) == 1 and part[0][0] == 'id' and part[0][1].startswith("'")
             cg = len(part) == 4 and _is(part[0], 'const') and part[1][0] == 'id' and _is(part[2], ':') and part[3][0] == 'id'
-            if not (lt or cg):
+            # or a type parameter with one trait bound `R : Round` (impl<R: Round, const B: Word> Mul<..> for FBig<R, B>)
+            tg = len(part) == 3 and part[0][0] == 'id' and _is(part[1], ':') and part[2][0] == 'id'
+            if not (lt or cg or tg):
                 raise Unsupported('D2: Generics entry may only list lifetimes and `const N: T` parameters: `%s`' % _txt(gen))
         ts = ts[:f + 2] + [T('p', '<')] + inner + [T('p', '>')] + ts[f + 2:]
         log.append('D2 hoist: impl generics `%s` declared on the free function' % _txt(inner))
@@ -1151,6 +1167,57 @@ def rule_d16(toks, log):
 
 
 # ---------------------------------------------------------------------------------------
+# D17: loop annotation on something that is no longer a loop (after a code change `while` -> `if`)
+
+def rule_d17(toks, log):
+    """An annotation run starting with `invariant` / `invariant_except_break` / `decreases` that sits in front of a
+    `{` must belong to a `while` / `for` / `loop` header.  After a code change that turned the loop into an `if` the
+    transplanted annotation would be a syntax error (the unit would be inconclusive); it is dropped instead, so that
+    the function is verified WITHOUT the loop contract and fails on its own postcondition if the change matters."""
+    out = []
+    i = 0
+    n = len(toks)
+    while i < n:
+        t = toks[i]
+        if t[2] and t[0] == 'id' and t[1] in ('invariant', 'invariant_except_break', 'decreases') \
+                and (i == 0 or not toks[i - 1][2]):
+            # end of the annotation run
+            j = i
+            while j < n and toks[j][2]:
+                j += 1
+            if j < n and _is(toks[j], '{'):
+                # walk back over the real header tokens to the statement start
+                k = len(out) - 1
+                d = 0
+                kw = None
+                while k >= 0:
+                    tk = out[k]
+                    if tk[0] == 'p' and tk[1] in rtok.CLOSE:
+                        d += 1
+                    elif tk[0] == 'p' and tk[1] in rtok.OPEN:
+                        if d == 0:
+                            break
+                        d -= 1
+                    elif d == 0 and tk[0] == 'p' and tk[1] == ';':
+                        break
+                    elif d == 0 and tk[0] == 'id' and tk[1] in ('while', 'for', 'loop') and not tk[2]:
+                        kw = tk[1]
+                        break
+                    elif d == 0 and tk[0] == 'id' and tk[1] in ('if', 'match') and not tk[2]:
+                        kw = tk[1]
+                        # keep looking: `while x == if ..` does not occur in practice; an `if` header ends the search
+                        break
+                    k -= 1
+                if kw not in ('while', 'for', 'loop'):
+                    log.append('D17 stale loop annotation dropped (header is now `%s`): %s' % (kw, _txt(toks[i:j])[:80]))
+                    i = j
+                    continue
+        out.append(t)
+        i += 1
+    return out
+
+
+# ---------------------------------------------------------------------------------------
 
 def lower(toks, marks, opts=None):
     """toks: [(kind,text)], marks: [bool]; returns ([(kind,text)], log)."""
@@ -1170,6 +1237,7 @@ def lower(toks, marks, opts=None):
     ts = rule_d14(ts, log)
     ts = rule_d15(ts, log)
     ts = rule_d16(ts, log)
+    ts = rule_d17(ts, log)
     ts = rule_d7(ts, log)
     ts = rule_d1(ts, log)
     ts = rule_d9(ts, log)
